@@ -93,3 +93,8 @@ def regions_roundtrip(seq, adj_list, origin, target, path):
     "C06/C07: the region extractors of token_utils recover from a full AOTP sequence exactly the four region token lists it was built from"
     toks = seq._sequence_tokens(adj_list, origin, target, path)
     return get_adj_list_tokens(toks), get_origin_tokens(toks), get_target_tokens(toks), get_path_tokens(toks, True)
+
+
+def adj_list_roundtrip(m, shuffle_d0, shuffle_d1):
+    "C13: rebuilding a maze from its own adjacency list"
+    return LatticeMaze.from_adj_list(m.as_adj_list(shuffle_d0, shuffle_d1))
